@@ -16,7 +16,7 @@ Definition bad : list N := [77777].
 Definition is_diag (k : N) : bool := (k =? 140).
 
 Definition is_monitor (k : N) : bool :=
-  (k =? 1) || (k =? 2) || (k =? 612) || ((150 <=? k) && (k <? 160)) || (k =? 1950) || (k =? 1951) || mmio_is_monitor k || pci_is_monitor k.
+  (k =? 1) || (k =? 2) || (k =? 612) || ((150 <=? k) && (k <? 170)) || (k =? 1950) || (k =? 1951) || mmio_is_monitor k || pci_is_monitor k.
 
 Definition dir_reads (d : N) : bool := (d =? 0) || (d =? 2).
 Definition dir_writes (d : N) : bool := (d =? 1) || (d =? 2).
@@ -52,7 +52,7 @@ Definition step (st : mstate) (k : N) (ins : list N) : mstate * list N :=
   else if (1900 <=? k) && (k <? 1950) then
     let q := match st with MOwning q => q | _ => None end in
     let '(q', o) := owning_step q k ins in (MOwning q', o)
-  else if (150 <=? k) && (k <? 160) then (st, queue_monitor k ins)
+  else if (150 <=? k) && (k <? 170) then (st, queue_monitor k ins)
   else if (100 <? k) && (k <? 150) then
     match st with
     | MQueue q => let '(q', o) := queue_step q k ins in (MQueue q', o)
